@@ -1,4 +1,4 @@
-/- protocol handler of C17: `(allow id cfg req (methods m…) obs)` -/
+/- protocol handler of C17: `(allow id cfg req (methods m…) obs [(preflights (pf acrm (allow m…) (acam m…) ran)…)])` -/
 import Restful.Driver.Routing
 import Restful.Spec.Options
 import Restful.Spec.Common
@@ -18,12 +18,19 @@ def decAllowObs (e : SExp) : Option Spec.AllowObs := do
            optHandlerRan := ← asBool ran, othersUntouched := ← asBool untouched }
   | _ => none
 
+/-- `(pf acrm (allow m…) (acam m…) ran)`: one OPTIONS probe that carried Access-Control-Request-Method -/
+def decPreflight (e : SExp) : Option Spec.PreflightObs := do
+  match ← args "pf" e with
+  | [a, al, acam, ran] => pure { acrm := ← asStr a, allow := ← strs "allow" al, acam := ← strs "acam" acam, handlerRan := ← asBool ran }
+  | _ => none
+
+def decPreflights (e : SExp) : Option (List Spec.PreflightObs) := do (← args "preflights" e).mapM decPreflight
+
 /-- model: the status of every probed method, the computed methods of the OPTIONS filter; spec on
     the real observation; the classes of the open findings -/
-def handleAllow : SExp → Option String
-  | .list [.atom "allow", .atom id, c, r, ms, o] =>
-    match decCfg c, decReq r, strs "methods" ms, decAllowObs o with
-    | some cfg, some req, some methods, some obs =>
+def answerAllow (id : String) (c r ms o : SExp) (pfs : Option (List Spec.PreflightObs)) : Option String :=
+    match decCfg c, decReq r, strs "methods" ms, decAllowObs o, pfs with
+    | some cfg, some req, some methods, some obs, some pfs =>
       let statuses := methods.map fun m =>
         match route implEnv cfg { req with method := m } with
         | .error 405 (some al) => s!"(p {hex m} 405 (allow {strList al}))"
@@ -31,12 +38,21 @@ def handleAllow : SExp → Option String
       let computed := match Cors.computeAllowedMethods implEnv cfg.services req.path with
         | some l => s!"(computed {strList l})"
         | none => "(computed-none)"
-      some (s!"(out {id} (probes {" ".intercalate statuses}) {computed}"
-        ++ specLine "C17" (Spec.c17Holds obs)
+      -- the model's answers to the preflight probes: the lists of `Spec.modelPreflight`, in order
+      let mpf := pfs.map fun p =>
+        let m := Spec.modelPreflight implEnv cfg req p.acrm
+        s!"(pf {hex p.acrm} (allow {strList m.allow}) (acam {strList m.acam}) {if m.handlerRan then 1 else 0})"
+      some (s!"(out {id} (probes {" ".intercalate statuses}) {computed} (preflights {" ".intercalate mpf})"
+        ++ specLine "C17" (Spec.c17HoldsAll obs pfs)
+        ++ specLine "C17bare" (Spec.c17Holds obs)
         ++ specLine "severalRootsMatch" (Spec.severalRootsMatch implEnv cfg req.path)
         ++ specLine "normalPath" (Spec.normalPath req.path)
         ++ specLine "wfCommon" (Spec.wfCommon cfg) ++ ")")
-    | _, _, _, _ => some s!"(bad-allow {id})"
+    | _, _, _, _, _ => some s!"(bad-allow {id})"
+
+def handleAllow : SExp → Option String
+  | .list [.atom "allow", .atom id, c, r, ms, o] => answerAllow id c r ms o (some [])
+  | .list [.atom "allow", .atom id, c, r, ms, o, pfs] => answerAllow id c r ms o (decPreflights pfs)
   | _ => none
 
 end Restful.Driver.OptionsP
